@@ -279,7 +279,7 @@ var (
 
 func parseDump(out string) ([]entry, string) {
 	var es []entry
-	lines := strings.Split(strings.TrimRight(out, "\n"), "\n")
+	lines := strings.Split(strings.TrimSuffix(out, "\n"), "\n")
 	if len(lines) == 1 && lines[0] == "" {
 		return nil, ""
 	}
@@ -329,7 +329,13 @@ func parseDump(out string) ([]entry, string) {
 			switch {
 			case strings.HasPrefix(v2, "string: "):
 				e.Kind = "string"
-				e.Val = tr.Bytes([]byte(strings.TrimPrefix(v2, "string: ")))
+				// the string is printed verbatim: one that holds line feeds continues on the following lines
+				sv := strings.TrimPrefix(v2, "string: ")
+				for len(sv) < ln && i+1 < len(lines) {
+					i++
+					sv += "\n" + lines[i]
+				}
+				e.Val = tr.Bytes([]byte(sv))
 			case strings.HasPrefix(v2, "[") && strings.HasSuffix(v2, "]"):
 				e.Kind = "bytes"
 				e.Val = []int{}
